@@ -105,14 +105,21 @@ CalcPad(p) ==
                                                            p.s, p.epb, p.epa)
         IN [pb |-> bef, pa |-> aft, skb |-> bef, ska |-> tot - bef]
 
-(* Box.transform_with_strides_and_skirt, height axis, followed by the first-and-last-stripe rule of create_padding *)
+(* Box.transform_with_strides_and_skirt, height axis, followed by the first-and-last-stripe rule of create_padding.
+   Since the repair of F1 / F2 an operator fused with a split / slice read computes its box WITHIN the slice (extent rl) and
+   the read offset ro is added once at the end; Mutant = "split_offset_before_stride" is the code before the repair (offset
+   added before the multiplication by the stride, clamps against the whole tensor). *)
+OldSplit == Mutant = "split_offset_before_stride"
+Ext(p) == IF p.sp /\ ~OldSplit THEN p.rl ELSE p.I            \* the extent the box and the pads are clamped to
+Pre(p) == IF p.sp /\ OldSplit THEN p.ro ELSE 0               \* offset added before the stride multiplication (old code)
+Post(p) == IF p.sp /\ ~OldSplit THEN p.ro ELSE 0             \* offset added at the end (repaired code)
 CodeH(p, a, b, first, last) ==
     LET cp == CalcPad(p)
         u == U(p)
-        off == IF p.sp THEN p.ro ELSE 0
-        ns0 == a - p.wo + off
-        ne0 == b - p.wo + off
-        ne1 == Min(ne0, p.I * u)
+        I == Ext(p)
+        ns0 == a - p.wo + Pre(p)
+        ne0 == b - p.wo + Pre(p)
+        ne1 == Min(ne0, I * u)
         rem == cp.skb % u
         \* since the repair of F4 the unclamped OFM end is used for the total stride and for the pad_bottom guard
         neT == IF Mutant = "pad_bottom_from_clamped_end" THEN ne1 ELSE ne0
@@ -121,25 +128,28 @@ CodeH(p, a, b, first, last) ==
         ptop0 == Max(0, 0 - ns1) + rem
         ns2 == Max(ns1, 0)
         ptop == IF Mutant = "pad_top_after_clamp" THEN Max(0, 0 - ns2) + rem ELSE ptop0
-        pbot == IF neT * p.s + cp.ska > p.I * u
-                THEN IF u # 1 /\ ne0 > p.I * u THEN ne0 - p.I * u
-                     ELSE Max(0, ns2 - ptop + tstride + KD(p) - p.I * u)
+        pbot == IF neT * p.s + cp.ska > I * u
+                THEN IF u # 1 /\ ne0 > I * u THEN ne0 - I * u
+                     ELSE Max(0, ns2 - ptop + tstride + KD(p) - I * u)
                 ELSE 0
         ska2 == IF Mutant = "skirt_remainder_removed" THEN cp.ska ELSE cp.ska + (cp.ska % u)
         c == Max(ns2 \div u, 0)
-        e == Max(Min((ne1 * p.s + ska2) \div u, p.I), 1)
+        e == Max(Min((ne1 * p.s + ska2) \div u, I), 1)
         whole == first /\ last
-    IN [a |-> a, b |-> b, c |-> c, e |-> e, pb |-> IF whole THEN cp.pb ELSE ptop, pa |-> IF whole THEN cp.pa ELSE pbot]
+    IN [a |-> a, b |-> b, c |-> c + Post(p), e |-> e + Post(p), pb |-> IF whole THEN cp.pb ELSE ptop, pa |-> IF whole THEN cp.pa ELSE pbot]
 
 (* the same for the width axis, followed by the left/right reset of create_padding *)
 CodeW(p, a, b) ==
     LET cp == CalcPad(p)
         u == U(p)
         off == IF p.sp THEN (IF Mutant = "split_offset_twice" THEN 2 * p.ro ELSE p.ro) ELSE 0
-        ns0 == a - p.wo + off
-        ne1 == Min(b - p.wo + off, p.I * u)
-        c == IF p.sp THEN Max(ns0 * p.s - cp.skb, p.ro) ELSE Max(ns0 * p.s - cp.skb, 0)
-        e == IF p.sp THEN Min(ne1 * p.s + cp.ska, p.ro + p.rl) ELSE Min(ne1 * p.s + cp.ska, p.I)
+        I == Ext(p)
+        ns0 == a - p.wo + (IF OldSplit THEN off ELSE 0)
+        ne1 == Min(b - p.wo + (IF OldSplit THEN off ELSE 0), I * u)
+        c0 == IF p.sp /\ OldSplit THEN Max(ns0 * p.s - cp.skb, p.ro) ELSE Max(ns0 * p.s - cp.skb, 0)
+        e0 == IF p.sp /\ OldSplit THEN Min(ne1 * p.s + cp.ska, p.ro + p.rl) ELSE Min(ne1 * p.s + cp.ska, I)
+        c == c0 + (IF OldSplit THEN 0 ELSE off)
+        e == e0 + (IF OldSplit THEN 0 ELSE off)
         cmin == IF p.sp THEN p.ro ELSE 0
         emax == IF p.sp THEN p.rl ELSE p.I
         left == IF (IF Mutant = "lt_le_pad_reset" THEN c >= cmin ELSE c > cmin) THEN 0 ELSE cp.pb
@@ -148,8 +158,8 @@ CodeW(p, a, b) ==
 
 (* no skirt (elementwise) or the depth axis: offsets and clamps only *)
 CodePlain(p, a, b) ==
-    LET off == IF p.sp THEN p.ro ELSE 0
-    IN [a |-> a, b |-> b, c |-> a - p.wo + off, e |-> Min(b - p.wo + off, p.I * U(p)), pb |-> 0, pa |-> 0]
+    LET I == Ext(p)
+    IN [a |-> a, b |-> b, c |-> a - p.wo + Pre(p) + Post(p), e |-> Min(b - p.wo + Pre(p), I * U(p)) + Post(p), pb |-> 0, pa |-> 0]
 
 Code(p, a, b, first, last) ==
     CASE p.kind = "full" -> [a |-> a, b |-> b, c |-> IF p.sp THEN p.ro ELSE 0,
